@@ -406,10 +406,22 @@ func solveAll(all []*OblResult, timeout time.Duration) {
 			}
 			sr := race(q, to, keep)
 			if sr.status == "unknown" && r.ob.Kind != "cover" {
-				// one retry with three times the budget: solver time varies with machine load
-				sr2 := race(q, 3*to, "")
-				sr2.dur += sr.dur
-				sr = sr2
+				// arrays passed to uninterpreted functions make satisfiable queries slow; without array extensionality
+				// z3 answers at once. Its `unsat` is sound as it stands; its `sat` is only taken after the ordinary
+				// solvers have failed a second time with three times the budget (solver time varies with machine load)
+				ne := noExt(q, to)
+				ne.dur += sr.dur
+				if ne.status == "unsat" {
+					sr = ne
+				} else {
+					sr2 := race(q, 3*to, "")
+					sr2.dur += ne.dur
+					sr = sr2
+					if sr.status == "unknown" && ne.status == "sat" {
+						ne.dur = sr2.dur
+						sr = ne
+					}
+				}
 			}
 			r.status, r.solver, r.dur, r.detail = sr.status, sr.solver, sr.dur, sr.out
 		}(r)
